@@ -294,8 +294,13 @@ func ghostAddOnly(idx *WorkspaceIndex, path string, fi *FileIndex) {
 //@   ensures [C09,C12:others] old(w.resolved) != nil ==> forall p string :: {w.resolved.Files[p]} p != path ==> w.resolved.Files[p] == old(w.resolved.Files[p]) && (has(w.resolved.Files, p) <==> old(has(w.resolved.Files, p)))
 //@   ensures [C09:primary] path == w.rootJournalPath ==> w.resolved.Primary == journal && w.resolved.PrimaryPath == path
 //@   modifies w.resolved, w.resolved.Primary, w.resolved.PrimaryPath, w.resolved.FileOrder, w.resolved.Files[*]
-//@ trusted sameStringSlice
+//@ func sameStringSlice
+//@   props C12 C06
 //@   effects none
+//@   ensures [C12:exact] result <==> (len(a) == len(b) && (forall i int :: {a[i]} 0 <= i && i < len(a) ==> a[i] == b[i]))
+//@   loop 1 invariant 0 - 1 <= rangeindex && rangeindex <= len(a) - 1 && len(a) == len(b)
+//@   loop 1 invariant forall i int :: {a[i]} 0 <= i && i <= rangeindex ==> a[i] == b[i]
+//@   loop 1 decreases len(a) - rangeindex
 //@ trusted (*Workspace).refreshIncludeTreeLocked
 //@   ensures old(w.cachedAccounts) == nil ==> w.cachedAccounts == nil
 //@   ensures old(w.cachedCommodities) == nil ==> w.cachedCommodities == nil
